@@ -45,4 +45,32 @@ PROPS = {
                        "map of the real ArchiveWriter (no layers) equal the model's (concrete SHA-256 in Coq)",
         "assumptions": ["the destination accepts every write (C13 lifts this)", "sha2::Sha256 equals FIPS 180-4 (Concrete/Sha256.v, KATs)"],
     },
+    "C01": {
+        "jobs": lambda tier: [
+            J("scaled", "c01"),
+        ],
+        "rule": "scaled constants: generated writing plans (1-4 files, 0-7 pieces of boundary sizes around CIPHERBUF/CHUNK/BLOCK, "
+                "random interleaving, names incl. empty/unicode/max-length, 4 layer combinations, levels {0,1,5,9,11}, 1-3 recipients, "
+                "reader holding any one key); non-trivial = at least one content byte; distinct = distinct (plan, read history)",
+        "exhaustive": {"quick": False, "thorough": False},
+        "explanation": "",
+        "assumptions": [],
+    },
+    "C16": {
+        "jobs": lambda tier: [
+            J("prod", "c16", needs_repo_bins=["mlar"]),
+        ],
+        "rule": "member-name sets from the path grammar: EVERY name of depth <= 2 (quick) / <= 3 (thorough) over 11 component kinds "
+                "('.', '..', normal, empty, unicode, 255 and 256 bytes, '...', absolute markers) x leading/trailing separator, "
+                "each together with a benign member, plus random sets of 1-4 names of depth <= 4; forms cycle over {linear, glob '*', one listed "
+                "name}; output directory argument relative/absolute, existing/absent; every case is non-trivial; distinct = distinct (set, form)",
+        "exhaustive": {"quick": True, "thorough": True},
+        "explanation": "theorems: filter-based and canonical-check-based confinement on a model file system, benign members extracted "
+                       "exactly; correspondence: the set of files (path, content) the real `mlar extract` leaves beneath the output "
+                       "directory equals the model's extract_all / extract_linear on the same members, and a recursive snapshot of the "
+                       "sandbox shows nothing else changed",
+        "assumptions": ["the output directory contains no symbolic link before extraction (the property quantifies over member names)",
+                        "Linux limits NAME_MAX=255, PATH_MAX=4096 in the model"],
+        "trusted_base": ["std::path::Path::components modelled in Path.v (56 examples generated from the real rustc output)"],
+    },
 }
